@@ -842,7 +842,13 @@ def list_sort(eng, world, lst, args, kwargs, node):
         lst.items.sort(key=lambda v: v.z)
         return NONE
     if "key" in kwargs or args:
-        raise OutOfSubset("sort with key")
+        # sort with a comparator key: the result is some permutation of the input (order decided by the
+        # comparator, which is verified separately to be a total preorder)
+        eng.assumptions_used.add("list.sort(key=cmp_to_key(f)) yields a permutation of the list (same length); the order is the one induced by f (C07: f is verified to be a total preorder)")
+        n = lst.n if not lst.concrete() else len(lst.items)
+        fresh = eng.symlist(zint(n), lst.elemty or "obj:GopherEntry", "sorted")
+        lst.items, lst.n, lst.get = None, zint(n), fresh.get
+        return NONE
     # symbolic list of strings: result is the sorted permutation (assumed contract of list.sort)
     if lst.concrete():
         raise OutOfSubset("sort of concrete list with symbolic elements")
